@@ -94,6 +94,8 @@ def gen_activities(rng, well_formed=True):
                         comm="0", net=dstr(rng, 0, 300, 2))
             if Fraction(base["net"]) == 0:
                 base["net"] = "0.01"
+            if rng.random() < 0.25:
+                base["net"] = "-" + base["net"]     # a dividend correction / claw-back
             acts.append(base)
         elif k < 0.8:
             usd = dstr(rng, 1, 5000, 2)
